@@ -1929,6 +1929,36 @@ def c16_lines(r, n):
     return lines
 
 
+def c16_route_lines(r, toks):
+    """the coin forwarded is the coin ICS-20 credited, on every route, whatever else the attributes carry (a maximum fee in the same
+    or another denomination, a warp token whose collateral is another denomination) and whatever sits on the orbiter account"""
+    lines, _ = scen.base_setup()
+    tok = {d: t for (t, d) in toks}
+    fee = [fee_action([(U[4], "b", 100)])]
+    for dn in ("uusdc", "uother"):
+        other = "uother" if dn == "uusdc" else "uusdc"
+        routes = [int_fwd(U[1])]
+        if dn == "uusdc":
+            routes += [cctp_fwd(domain=0), cctp_fwd(domain=5, caller=b"\x05" * 32)]
+        for mf in (None, (dn, 0), (dn, 100), (dn, 10 ** 6), (other, 5), ("stake", 1)):
+            routes.append(hyp_fwd(tok[dn], domain=1, fee=mf))
+        routes.append(hyp_fwd(tok[other], domain=1))            # a token whose collateral is the other denomination
+        for rt in routes:
+            for acts in (None, fee):
+                for op in ("recvh", "recv"):
+                    lines.append(orb_pkt(op, 10 ** 6, rt, acts, denom=dn))
+    # a warp token that was used before, coins of its collateral already on the orbiter account, and a transfer of another
+    # denomination naming that token: nothing but the credited coin may leave
+    lines.append(orb_pkt("recv", 1000, hyp_fwd(tok["uusdc"], domain=1), None, denom="uusdc"))
+    lines.append(orb_pkt("recvh", 1000, hyp_fwd(tok["uusdc"], domain=1), None, denom="uusdc"))
+    lines.append("deposit %s %s 500" % (hx(ORB_BYTES), hx("uusdc")))
+    for op in ("recv", "recvh"):
+        lines.append(orb_pkt(op, 500, hyp_fwd(tok["uusdc"], domain=1), None, denom="uother"))
+        lines.append(orb_pkt(op, 500, hyp_fwd(tok["uusdc"], domain=1), fee, denom="uother"))
+    lines.append(orb_pkt("recv", 1000, int_fwd(U[1]), None, denom="uusdc"))
+    return lines
+
+
 def c16_oracle(steps):
     out = []
     last_pure = None
@@ -1960,8 +1990,19 @@ def c16_oracle(steps):
                 import re
                 req = s.impl.get("hreq") or ""
                 m = re.search(r"coins=([0-9a-f]+)=(\d+)", req)
-                if m and (unhx(m.group(1)).decode() != dn or int(m.group(2)) != amt):
+                no_actions = not (p["payload"] or {}).get("pre_actions")
+                if m and no_actions and (unhx(m.group(1)).decode() != dn or int(m.group(2)) != amt):
                     out.append((s.i, "different-coin: forwarded %s %s, ICS-20 credited %d %s" % (m.group(2), unhx(m.group(1)).decode(), amt, dn)))
+                m = re.search(r"cctp\.DepositForBurn\w*:from=[0-9a-f]+:amount=(\d+):.*?:burn=([0-9a-f]+)", req)
+                if m and no_actions and (unhx(m.group(2)).decode() != dn or int(m.group(1)) != amt):
+                    out.append((s.i, "different-coin: burned %s %s, ICS-20 credited %d %s" % (m.group(1), unhx(m.group(2)).decode(), amt, dn)))
+                m = re.search(r"warp\.RemoteTransfer:.*?:amount=(\d+):", req)
+                if m and no_actions and int(m.group(1)) != amt:
+                    out.append((s.i, "different-coin: remote transfer of %s, ICS-20 credited %d %s" % (m.group(1), amt, dn)))
+                if no_actions:
+                    orbk = [(a, d) for (a, d), v in delta.items() if a == ORB_BYTES.hex() and v != 0]
+                    if orbk:
+                        out.append((s.i, "different-coin: the orbiter account changed in %s" % orbk))
                 st = s.impl.get("st", "")
                 if ("|%s|" % hx(dn)) not in st:
                     out.append((s.i, "different-coin: statistics do not record denom %s" % dn))
@@ -1985,7 +2026,10 @@ class C16(Base):
     def streams(self, tier, seed):
         r = Rng(seed * 1000 + 16)
         f = {"pure": ["_"], "recv": ["ack", "bal", "mv"], "recvh": ["ack", "bal", "hreq", "st"]}
-        return [Stream("S1+S3-denominations-beside-ICS20", c16_lines(r, self.n(tier, 200, 2000)), fields=f, oracle=c16_oracle)]
+        _, toks = scen.base_setup()
+        f2 = {"recv": ["ack", "bal", "req", "mv", "st"], "recvh": ["ack", "bal", "hreq", "st"]}
+        return [Stream("S1+S3-denominations-beside-ICS20", c16_lines(r, self.n(tier, 200, 2000)), fields=f, oracle=c16_oracle),
+                Stream("S3-credited-coin-on-every-route", c16_route_lines(r.fork(2), toks), fields=f2, oracle=c16_oracle)]
 
 
 # ----------------------------------------------------------------------------------------------- C18
@@ -1999,6 +2043,10 @@ def c18_lines(r, n):
         for L in sorted({0, 1, max(0, limit - 1), limit, limit + 1, limit + 2, 2 * limit + 3} & set(range(0, 6000))):
             rt = r.choice([cctp_fwd(domain=0, passthrough=b"\xab" * L), hyp_fwd(toks[0][0], domain=1, passthrough=b"\xcd" * L)])
             out.append(orb_pkt("recv", 1000, rt))
+        # only the passthrough bytes count: other opaque attribute data (hook metadata, callers, recipients) never does
+        for L in sorted({0, limit} & set(range(0, 6000))):
+            out.append(orb_pkt("recv", 1000, hyp_fwd(toks[0][0], domain=1, passthrough=b"\xcd" * L, meta="0x" + "ab" * r.choice([1, 3, 40]))))
+            out.append(orb_pkt("recv", 1000, cctp_fwd(domain=0, passthrough=b"\xab" * L, caller=b"\x05" * 32)))
         return out
     lines += probes(0)                       # default parameters
     lines.append("query Params")
